@@ -8,8 +8,8 @@
 // recorded.  The Coq side runs the LTS of Model/Limits.v over the same labels and compares; the property oracle
 // looks at the recorded observations only.
 //
-// stale: directed schedule for the perIPConn wrapper pool (a Close by a third party, then the wrapper is recycled for
-// another connection, then the first owner closes again).
+// stale: directed schedule for the perIPConn wrapper objects (a Close by a third party, then another connection arrives,
+// then the first owner closes again: before bf2f4e5 the wrapper had been recycled and the second Close hit the newcomer).
 //
 // stress: 64 connections served concurrently through one Serve loop or through ServeConn; judged on summary counters.
 package main
@@ -1074,8 +1074,6 @@ func runStress(d desc) hlib.Case {
 
 // ---- stale: a Close through a recycled perIPConn wrapper ---------------------------------------------------------
 
-const staleKey = "peripconn-stale-close-hits-recycled-wrapper"
-
 func runStale(d desc) hlib.Case {
 	old := runtime.GOMAXPROCS(1) // one P: sync.Pool.Get returns what the last Put stored
 	defer runtime.GOMAXPROCS(old)
@@ -1190,15 +1188,11 @@ func runStale(d desc) hlib.Case {
 	x.setEOF()
 	y.Close()
 	coq := fmt.Sprintf("(CStale %s %s %s %s %s)", hlib.Bool(recycled), hlib.Bool(victim), hlib.N(uint64(ax.ip)), hlib.N(uint64(ay.ip)), after)
-	key := ""
-	if recycled {
-		key = staleKey
-	}
 	kind := fmt.Sprintf("stale-%s-recycled=%v-victim=%v-y=%s", d.Variant, recycled, victim, yres)
 	if stuck {
 		kind += "-stuck"
 	}
-	return hlib.Case{Coq: coq, Key: key, Sig: kind, Kind: kind, Size: 4}
+	return hlib.Case{Coq: coq, Sig: kind, Kind: kind, Size: 4}
 }
 
 // ---- generation ---------------------------------------------------------------------------------------------------
@@ -1325,7 +1319,8 @@ func corpus() []desc {
 		{Mode: "replay", Conc: 2, MaxIP: 1, EndStop: 1, Ops: ops("servestart accept:0 idle:0 closetwice:0 accept:0 idle:0 eof:0 accept:0 idle:0 userclose:0 accept:0 finish:0")},
 		// workers are reused after release, and exit when their Serve has returned
 		{Mode: "replay", Conc: 2, MaxIP: 0, EndStop: 1, Ops: ops("servestart accept:0 accept:1 accept:2 finish:1 accept:2 servestop:0 finish:0 finish:0")},
-		// FINDING: a Close through a reference to a recycled perIPConn wrapper closes somebody else's connection
+		// regression for the repaired finding peripconn-stale-close-hits-recycled-wrapper (bf2f4e5): a Close through an old reference
+		// to a wrapper object must not reach the connection that arrived in between (wrappers are not recycled any more)
 		{Mode: "stale", Variant: "direct"},
 		{Mode: "stale", Variant: "shutdown"},
 		{Mode: "stress", Conc: 3, MaxIP: 2, NConn: 64, Entry: "serve", Seed: 11},
